@@ -2231,6 +2231,7 @@ func (m *Msg) WriteTo(writer io.Writer) (int64, error) {
 
 	if m.hasSMIME() {
 		if err := m.signMessage(); err != nil {
+			m.headerCount = 0
 			return 0, err
 		}
 	}
@@ -2273,6 +2274,7 @@ func (m *Msg) WriteToSkipMiddleware(writer io.Writer, middleWareType MiddlewareT
 
 	if m.hasSMIME() {
 		if err := m.signMessage(); err != nil {
+			m.headerCount = 0
 			return 0, err
 		}
 	}
@@ -3110,6 +3112,9 @@ func (m *Msg) signMessage() error {
 	buf := bytes.NewBuffer(nil)
 	mw := &msgWriter{writer: buf, charset: m.charset, encoder: m.encoder, signing: true}
 	mw.writeMsg(m)
+	if mw.err != nil {
+		return fmt.Errorf("failed to render message for signing: %w", mw.err)
+	}
 
 	// Since we only want to sign the message body, we need to find the position within
 	// the mail body from where we start reading.
